@@ -475,7 +475,7 @@ impl Check for C13 {
         crate::lc::lc_finding_key(v)
     }
     fn rule() -> &'static str {
-        "one run = one simulated world (<= 300 messages) through a pipeline assembled like convert.rs from the public stages (lifecycle, optional plugins, optional sort, optional filter), every stage a shuttle thread sending with the blocking-send helper over sync_channels whose bounds are overridden per run (0/1/2/3-16/1024), producer and consumer stalling at random points, in 1 of 5 runs the consumer disappearing after k messages; compared with the same stages run to completion one after the other over unbounded channels; one run in eight uses the wiring of remote.rs instead (real create_parser_thread behind the server loop, sorted or not, collect modes) where the consumer leaves through `close` after 0-400 polls, optionally paused, followed by a second open/close: close must complete and be answered; in half of these runs everything is parsed instead and the lifecycle table a client accumulates from the server's incremental updates is compared with the table of the unbounded reference run; one seeded schedule per run; non-trivial = more than one message; distinct = hash of (world, scheduler seed, capacities)"
+        "one run = one simulated world (<= 300 messages) through a pipeline assembled like convert.rs from the public stages (lifecycle, optional plugins, optional sort, optional filter), every stage a shuttle thread sending with the blocking-send helper over sync_channels whose bounds are overridden per run (0/1/2/3-16/1024), producer and consumer stalling at random points, in 1 of 5 runs the consumer disappearing after k messages; compared with the same stages run to completion one after the other over unbounded channels; one run in eight uses the wiring of remote.rs instead (real create_parser_thread behind the server loop, sorted or not, collect modes) where the consumer leaves through `close` after 0-400 polls, optionally paused, followed by a second open/close: close must complete and be answered; in half of these runs everything is parsed instead and the lifecycle table a client accumulates from the server's incremental updates is compared with the table of the unbounded reference run, and in half of those a query and a stream over everything are requested straight after the open (while the pipeline is still producing): both must deliver every message, the query the same sequence as the stream plus an end marker; one seeded schedule per run; non-trivial = more than one message; distinct = hash of (world, scheduler seed, capacities)"
     }
     fn assumptions() -> Vec<&'static str> {
         vec![
